@@ -425,6 +425,132 @@ def _rand_events(rng, n, float_bg):
     return img, bg, m
 
 
+# --------------------------------------------------------------------------
+# LazyContourList: the contour served for event i is the contour of mask i
+# --------------------------------------------------------------------------
+MASK = z3.Function("mask_of_event", z3.IntSort(), Elem)
+CONT = z3.Function("contour_of_mask", Elem, Elem)        # ghost: get_contour as a function of the mask
+
+
+def _deq(ctx, name, sort, n, maxlen):
+    return ctx.obj("Deq", {"a": z3.Const(name, z3.ArraySort(z3.IntSort(), sort)), "n": n, "maxlen": maxlen}, name=name)
+
+
+def _deq_index(interp, dq, x):
+    """deque.index(x): the first position holding x, ValueError when there is none"""
+    ctx = interp.ctx
+    a, n = dq.fields["a"], dq.fields["n"]
+    xe = to_z3(x)
+    j = z3.Int("j!")
+    if ctx.decide(ctx.bool("found_in_deque")):
+        q = ctx.int("first_position").e
+        ctx.assume(z3.And(q >= 0, q < n, a[q] == xe, z3.ForAll([j], z3.Implies(z3.And(j >= 0, j < q), a[j] != xe))))
+        return wrap(q)
+    ctx.assume(z3.ForAll([j], z3.Implies(z3.And(j >= 0, j < n), a[j] != xe)))
+    raise PyRaise(ValueError, ("not in deque",))
+
+
+def _deq_getitem(interp, dq, k):
+    ke = to_z3(k)
+    if not interp.ctx.decide(wrap(z3.And(ke >= 0, ke < dq.fields["n"]))):
+        raise PyRaise(IndexError, ("deque index out of range",))
+    v = dq.fields["a"][ke]
+    return wrap(v) if v.sort() == z3.IntSort() else SOpaque(v)
+
+
+def _deq_append(interp, dq, v):
+    """deque.append: at maxlen the oldest entry (position 0) is dropped"""
+    ctx = interp.ctx
+    interp.heap_write(dq)
+    a, n, m = dq.fields["a"], dq.fields["n"], dq.fields["maxlen"]
+    ve = to_z3(v)
+    k = z3.Int("k!")
+    if m is not None and ctx.decide(wrap(n == m)):
+        dq.fields["a"] = z3.Lambda([k], z3.If(k == n - 1, ve, a[k + 1]))
+    else:
+        dq.fields["a"] = z3.Store(a, n, ve)
+        dq.fields["n"] = n + 1
+    return None
+
+
+def _deq_delitem(interp, dq, kk):
+    interp.heap_write(dq)
+    a, n = dq.fields["a"], dq.fields["n"]
+    ke = to_z3(kk)
+    if not interp.ctx.decide(wrap(z3.And(ke >= 0, ke < n))):
+        raise PyRaise(IndexError, ("deque index out of range",))
+    k = z3.Int("k!")
+    dq.fields["a"] = z3.Lambda([k], z3.If(k < ke, a[k], a[k + 1]))
+    dq.fields["n"] = n - 1
+    return None
+
+
+for _nm, _f in (("index", _deq_index), ("__getitem__", _deq_getitem), ("append", _deq_append), ("__delitem__", _deq_delitem),
+                ("__len__", lambda interp, dq: wrap(dq.fields["n"]))):
+    h5model.OBJ_METHODS[("Deq", _nm)] = _f
+h5model.OBJ_METHODS[("Masks", "__getitem__")] = lambda interp, m, k: SOpaque(MASK(to_z3(k)))
+h5model.OBJ_METHODS[("Masks", "__len__")] = lambda interp, m: m.fields["n"]
+
+
+class GetContour(Contract):
+    """get_contour(mask): a function of the mask (its tracing property is exercised by the bounded layer)"""
+    name = "get_contour"
+    trusted = True
+
+    def __call__(self, interp, mask):
+        return SOpaque(CONT(to_z3(mask)))
+
+
+class LazyContourGetitem(Contract):
+    """LazyContourList.__getitem__(idx) for an integer index -- representation invariant: the
+    two deques have the same length and entry k of `contours` is the contour of mask
+    `indices[k]`.  Under the invariant the call returns the contour of mask idx and
+    re-establishes the invariant, for a cache of any length, unbounded or at its limit."""
+    path = FEAT + "contour.py"
+    module = "dclab.features.contour"
+    qualname = "LazyContourList.__getitem__"
+    classes = {"LazyContourList": (FEAT + "contour.py", "LazyContourList")}
+    class_modules = {"LazyContourList": "dclab.features.contour"}
+    params = ("self", "idx")
+
+    def __init__(self, bounded):
+        self.bounded = bounded
+        self.name = f"LazyContourList.__getitem__[{'cache with a limit' if bounded else 'unlimited cache'}]"
+        super().__init__()
+        self.callees = {"get_contour": GetContour()}
+
+    def inv(self, ind, cont):
+        k = z3.Int("k!")
+        a_i, a_c, n = ind.fields["a"], cont.fields["a"], ind.fields["n"]
+        return z3.And(n == cont.fields["n"], n >= 0,
+                      z3.ForAll([k], z3.Implies(z3.And(k >= 0, k < n), a_c[k] == CONT(MASK(a_i[k])))))
+
+    def inputs(self, ctx):
+        n = ctx.int("cached", lo=0, inp=True).e
+        m = None
+        if self.bounded:
+            m = ctx.int("max_events", lo=1, inp=True).e
+            ctx.assume(n <= m)
+        self._ind = _deq(ctx, "indices", z3.IntSort(), n, m)
+        self._cont = _deq(ctx, "contours", Elem, n, m)
+        ctx.assume(self.inv(self._ind, self._cont))
+        nev = ctx.int("n_events", lo=1)
+        idx = ctx.int("idx", inp=True)
+        ctx.assume(z3.And(idx.e >= 0, idx.e < nev.e))
+        self_ = ctx.obj("LazyContourList", {"masks": ctx.obj("Masks", {"n": nev}, name="masks"), "indices": self._ind,
+                                            "contours": self._cont}, name="self")
+        return {"self": self_, "idx": idx}
+
+    def ensures(self, ctx, old, a, result):
+        return [("the contour served for event idx is the contour of mask idx", to_z3(result) == CONT(MASK(a.idx.e))),
+                ("afterwards every cached contour is still filed under the event it belongs to (representation invariant)",
+                 self.inv(self._ind, self._cont))]
+
+
+UNITS += [LazyContourGetitem(False), LazyContourGetitem(True)]
+TRUSTED += [GetContour()]
+
+
 def _replay_bright(unit_name, inp):
     from dclab.features.bright import get_bright
     from dclab.features.bright_bc import get_bright_bc
@@ -509,6 +635,23 @@ def replay(unit_name, inp, obligation=""):
                 if any(not np.array_equal(a_, b_) for a_, b_ in zip(cont, before)):
                     return {"failed": True, "detail": f"get_inert_ratio_prnc modified the {np.dtype(dt).name} contour it was given"}
             return {"failed": False, "detail": "contours unchanged"}
+        if unit_name.startswith("LazyContourList"):
+            from dclab.features.contour import LazyContourList, get_contour
+            rng = np.random.default_rng(int(inp.get("seed", 0)) + 5)
+            masks = np.zeros((7, 30, 40), dtype=bool)
+            yy, xx = np.mgrid[:30, :40]
+            for ii in range(7):
+                masks[ii] = ((xx - (8 + 4 * ii)) / (3 + ii * 0.5)) ** 2 + ((yy - (8 + 2 * ii)) / (2.5 + 0.3 * ii)) ** 2 <= 1
+            want = [get_contour(m) for m in masks]
+            for max_events in ((None, 3, 2, 1000) if "limit" in unit_name else (None, 0)):
+                lazy = LazyContourList(masks, max_events=max_events) if max_events != 1000 else LazyContourList(masks)
+                pattern = [0, 1, 2, 3, 1, 2, 3, 0, 4, 4, 5, 1, 5, 3, 0, 2] + [int(i) for i in rng.integers(0, 7, 40)]
+                for step, i in enumerate(pattern):
+                    got = lazy[i]
+                    if got.shape != want[i].shape or not np.array_equal(got, want[i]):
+                        return {"failed": True, "detail": f"LazyContourList(max_events={max_events}): after the accesses "
+                                                          f"{pattern[:step]} the contour served for event {i} is not the contour of mask {i}"}
+            return {"failed": False, "detail": "every access pattern serves the contour of the requested mask"}
         if unit_name.startswith("get_volume"):
             from dclab.features.volume import get_volume
             th = np.linspace(0, 2 * np.pi, 720, endpoint=False)
